@@ -5,7 +5,7 @@ import glob
 import os
 
 from . import gen
-from .common import Batch, Result, canon_json, conv_tree, err_class, fl, load_corpus, raw_parse, render_doc, rng_for
+from .common import REPO, Batch, Result, canon_json, conv_tree, err_class, fl, load_corpus, raw_parse, render_doc, rng_for
 from .decsnap import impl_tables, impl_tables_public, model_tables
 
 
@@ -151,6 +151,24 @@ def run(ctx):
         doc, info = gen.gen_doc(rng, cc=rng.random() < 0.4, copies=rng.random() < 0.3)
         cc = rng.random() < 0.8
         one(render_doc(doc), "generated", doc=doc, cc=cc)
+        if i % 4 == 1 and doc:
+            # comments holding characters some line-splitting routines cut at (form feed, vertical tab, file/group/record
+            # separators, NEL, LINE / PARAGRAPH SEPARATOR) followed by text that would be live input: for the grammar a comment
+            # ends at the line feed only, so the statements are those of the plain text
+            odd = ["\x0c", "\x0b", "\x1c", "\x1d", "\x1e", "\x85", "\u2028", "\u2029"]
+            out = []
+            inside = False
+            for ln in render_doc(doc).split("\n"):
+                out.append(ln)
+                if ln.startswith("Decay "):
+                    inside = True
+                elif ln.startswith("Enddecay"):
+                    inside = False
+                if ln and rng.random() < 0.4:
+                    tail = "0.5 K+ K- PHSP;" if inside else rng.choice(["Alias odd1 odd2", "CDecay odd3", "noPhotos", "Define oddx 1.0"])
+                    out.append(("  " if inside else "") + "# note" + rng.choice(odd) + tail)
+            one("\n".join(out), "odd-comment-characters", doc=doc, cc=cc)
+            res.count("odd_comment_texts")
         if i % 3 == 0 and doc:
             # a file sharing most of its text with the previous one, then the previous one again: every parse must be
             # answered from its own text (nothing remembered under a key that ignores an edited value)
@@ -174,9 +192,9 @@ def run(ctx):
                 doc = [["decay", "M" + ch, [["1.0", ["pi+", name, name], False, ["named", "PHSP", None]]]]]
                 one(render_doc(doc), "alphabet", doc=doc)
     # shipped files
-    files = sorted(glob.glob("/repo/tests/data/*.dec")) + (sorted(glob.glob("/repo/tests/data/models/*.dec")) if tier == "thorough" else sorted(glob.glob("/repo/tests/data/models/*.dec"))[seed % 5::5])
+    files = sorted(glob.glob(REPO + "/tests/data/*.dec")) + (sorted(glob.glob(REPO + "/tests/data/models/*.dec")) if tier == "thorough" else sorted(glob.glob(REPO + "/tests/data/models/*.dec"))[seed % 5::5])
     if tier == "thorough":
-        files += ["/repo/src/decaylanguage/data/DECAY_LHCB.DEC", "/repo/src/decaylanguage/data/DECAY_BELLE2.DEC"]
+        files += [REPO + "/src/decaylanguage/data/DECAY_LHCB.DEC", REPO + "/src/decaylanguage/data/DECAY_BELLE2.DEC"]
     for f in files:
         try:
             text = open(f, encoding="utf-8").read() + "\n"
